@@ -5,7 +5,7 @@ from oracle_util import *  # noqa
 from protocol import from_real
 
 ID = "C08"
-LEAN_MODULE = ["SCoda.Props.C08", "SCoda.Props.Purity", "SCoda.Props.C16b", "SCoda.Props.Strong589", "SCoda.Props.WrapTie"]
+LEAN_MODULE = ["SCoda.Props.C08", "SCoda.Props.Purity", "SCoda.Props.C16b", "SCoda.Props.Strong589", "SCoda.Props.WrapTie", "SCoda.Props.RelTie2"]
 CLAUSES = [
     ("at most one piece more than capacities; no piece is empty; the loop always terminates", ["SCoda.C08.count", "SCoda.C08.nonempty", "SCoda.C08.split_total"]),
     ("every piece except the last lasts exactly its capacity", ["SCoda.C08.exact"]),
@@ -19,8 +19,12 @@ CLAUSES = [
      "`cutNotes`: a note with on < b < off becomes [on,b) and [b,off) with the same channel, pitch and velocity), per key an ordered equality; every note-on of a piece carries "
      "channel, pitch and velocity of the source note sounding at that tick (the one being cut, not merely some earlier note of the key)",
      ["SCoda.Strong589.closed_boundary", "SCoda.Strong589.sound_boundary", "SCoda.Strong589.notes_cut", "SCoda.Strong589.notes_cut_key", "SCoda.Strong589.velocity_strong", "SCoda.Strong589.split_notesB"]),
-    ("TIE BY TRANSLATION: Sequence.split (read the relative view, split it, wrap every piece in a new Sequence around a copy) as re-translated from the source equals the "
-     "wrapper model; RelativeSequence.split itself stays tied by correspondence", ["SCoda.WrapTie.split_eq"]),
+    ("TIE BY TRANSLATION: RelativeSequence.split (nested while loops over the working memory, open-note table keyed by (channel, pitch), deferred queue) is re-translated "
+     "statement by statement on every run (Gen/RelFns2.lean) and proved equal to the model `split` for all inputs with non-negative capacities and channels that are not "
+     "None; the fuel the translation gives the loops is proved sufficient for every input (the call always terminates); for a negative capacity the hand model differs "
+     "from the code (refuted statement; the property says positive capacities); Sequence.split is the translated wrapper method",
+     ["SCoda.RelTie2.split_eq", "SCoda.RelTie2.split_total", "SCoda.RelTie2.split_ok_iff", "SCoda.RelTie2.split_anyCapacity_statement_false",
+      "SCoda.RelTie2.split_anyChannel_statement_false", "SCoda.WrapTie.split_eq"]),
     ("every non-note event at its original tick (partial: outside the final-boundary class — known finding D8; in general a sublist)",
      ["SCoda.C08.others_partial", "SCoda.C08.others_sublist", "SCoda.C08.split_drops_final_boundary_event"]),
     ("the source sequence is not changed: no write site of RelativeSequence.split / Sequence.split acts on an object that existed before the call "
